@@ -8,6 +8,7 @@
      MC_SchedXfer_nozlib.cfg  ZlibDetects = FALSE: shows that NeverMixed rests on the checksum
      MC_SchedXfer_age.cfg   (thorough) as-is, three transfers (reads + writes), one edit, one ageing of the cached
                             counter, one overheard RP|0006: ResultAsOfRead (freshness window in the contract) must hold
+     MC_SchedXfer_head.cfg / _head_fix.cfg   edits that leave fragment 1 unchanged (below)
      MC_SchedXfer_ageignored.cfg  SpecAgeIgnored (below): ResultAsOfRead must be refuted
      MC_SchedXfer_scen_age.cfg    two transfers, one edit, one ageing: the clauses must hold, and every maximal behaviour
                             is printed (scenario enumeration; each is executed with a sweep of elapsed times) *)
@@ -24,6 +25,13 @@ View == <<G, late, ctr, cver, phase, cnt, ct, lastEnded, fuDone, lockAtMainEnd>>
 HSet  == {h[i] : i \in DOMAIN h}
 ViewH == <<View, HSet>>
 ScenarioOut == phase = "end" => PrintT(<<"H", h>>)
+
+\* An edit that leaves the first fragment as it was (MC_SchedXfer_head.cfg, Shared <- SharedHead): versions 1 and 3 start
+\* with the bytes of versions 0 and 2.  The code as it is (the three repairs made so far; FixHead = FALSE) re-validates a
+\* cached fragment set by its first fragment alone: ResultAsOfRead must be refuted.  MC_SchedXfer_head_fix.cfg
+\* (FixHead <- Yes: the whole cached set is dropped when the counter has gone up): every clause holds.
+SharedHead == [c \in 0..7 |-> IF c \in {1, 3} THEN {1} ELSE {}]
+Yes == TRUE
 
 \* Teeth of the freshness window (MC_SchedXfer_ageignored.cfg): a gateway whose cached change counter never expires
 \* (the window passes for the environment, Expired, but the gateway goes on believing its counter is fresh).
